@@ -122,4 +122,61 @@ pub proof fn lemma_close_comment(body: Seq<char>, tail: Seq<char>)
     assert(t[0] == body[0] && t[1] == body[1] && t[2] == body[2]);
 }
 
+
+// ---- the text of a doc comment inside the block (C15: "contains the documentation text") ----
+// every character of the text in order; a `\` is put in front of a `/` that follows a `*` (the `*` may be the last character
+// already in the buffer: `star0`)
+pub open spec fn star_before(star0: bool, d: Seq<char>, i: int) -> bool { if i <= 0 { star0 } else { d[i - 1] == '*' } }
+pub open spec fn doc_esc(star0: bool, d: Seq<char>) -> Seq<char>
+    decreases d.len()
+{
+    if d.len() == 0 { Seq::<char>::empty() }
+    else {
+        let p = d.drop_last();
+        doc_esc(star0, p) + (if d.last() == '/' && star_before(star0, d, d.len() - 1) { seq!['\\'] } else { Seq::<char>::empty() }) + seq![d.last()]
+    }
+}
+// e is d with some backslashes inserted (nothing else added, nothing removed, order kept)
+pub open spec fn only_backslashes_inserted(d: Seq<char>, e: Seq<char>) -> bool
+    decreases e.len()
+{
+    if e.len() == 0 { d.len() == 0 }
+    else {
+        (d.len() > 0 && d.last() == e.last() && only_backslashes_inserted(d.drop_last(), e.drop_last()))
+        || (e.last() == '\\' && only_backslashes_inserted(d, e.drop_last()))
+    }
+}
+pub proof fn lemma_doc_esc_carries_the_text(star0: bool, d: Seq<char>)
+    ensures only_backslashes_inserted(d, doc_esc(star0, d))
+    decreases d.len()
+{
+    if d.len() > 0 {
+        let p = d.drop_last();
+        lemma_doc_esc_carries_the_text(star0, p);
+        let e = doc_esc(star0, d);
+        assert(e.last() == d.last());
+        if d.last() == '/' && star_before(star0, d, d.len() - 1) {
+            let mid = doc_esc(star0, p) + seq!['\\'];
+            assert(e.drop_last() =~= mid);
+            assert(mid.drop_last() =~= doc_esc(star0, p));
+            assert(mid.last() == '\\');
+            assert(only_backslashes_inserted(p, mid));
+        } else {
+            assert(e.drop_last() =~= doc_esc(star0, p));
+        }
+    }
+}
+// the rendering parse_docs produces for the texts of the doc attributes
+pub open spec fn doc_lines(ds: Seq<Seq<char>>, n: int) -> Seq<char>
+    decreases n
+{
+    if n <= 0 { Seq::<char>::empty() }
+    else { doc_lines(ds, n - 1) + " *"@ + doc_esc(true, ds[n - 1]) + (if n < ds.len() { seq!['\n'] } else { Seq::<char>::empty() }) }
+}
+pub open spec fn render_docs(ds: Seq<Seq<char>>) -> Seq<char> {
+    if ds.len() == 0 { Seq::<char>::empty() }
+    else if ds.len() == 1 && ds[0].contains('\n') { "/**"@ + doc_esc(true, ds[0]) + "*/\n"@ }
+    else { "/**\n"@ + doc_lines(ds, ds.len() as int) + "\n */\n"@ }
+}
+
 } // verus!
